@@ -69,6 +69,12 @@ def add_uplink(u):
                                 'incoming.forward_to_client.len() == 0', 'incoming.read_any'], dec='ack_list.len() - seq_nx'),
                },
                splices=[
-                   ('return Ok(incoming);', 'proof { assert(uplink_post(old(conn), conn, data@, now)); }', 'before'),
-                   ('    Ok(incoming)\n}', '    proof { assert(uplink_post(old(conn), conn, data@, now)); }\n    Ok(incoming)\n}', 'replace'),
+                   ('return Ok(incoming);', '''proof {
+                assert(uplink_post(old(conn), conn, data@, now));  // @ob C09+C07+C08.uplink.liveness_stamp_and_clean_rejoin
+            }''', 'before'),
+                   ('    Ok(incoming)\n}', '''    proof {
+        assert(uplink_post(old(conn), conn, data@, now));  // @ob C09+C07+C08.uplink.liveness_stamp_and_clean_rejoin
+    }
+    Ok(incoming)
+}''', 'replace'),
                ]))
